@@ -27,7 +27,8 @@ RULE = ('one case = one Configurator program (security policy absent / truthy ob
         'application built from the same statements is alive in the same process and serves every request first; the marker VALUE '
         'as an equal non-identical str; permission=None passed explicitly to add_view / add_static_view; a policy object whose '
         '`permits` attribute resolves to another callable until the application is built; request_method= predicates in several '
-        'spellings of one method set (tuple order, implied HEAD), overrides of a later commit re-spelling them; GET/POST/HEAD requests) '
+        'spellings of one method set (tuple order, implied HEAD), overrides of a later commit re-spelling them; GET/POST/HEAD requests; '
+        'accept= views (text/html, application/json) with Accept headers in several spellings, also as warm traffic before an override) '
         'x a random decision table x 8-12 requests through Router.__call__; observation = ordered log of '
         'policy.permits calls (answers of several truthy/falsy kinds), decorator entries, view-body executions, the exception the '
         'main handler raised, and the final response or propagated exception. non-trivial = a policy is declared, at least one '
@@ -76,7 +77,8 @@ LEVEL_TEXT = ('Machine-checked theorems over the request path REGENERATED from t
               'csrf_view directly under it; the judge clauses J1/J2 accept every model trace; secure=False is never used by the router; '
               'the regenerated MultiView.__call__ is the model\'s loop; the registration key (slot, phash, predicates, order) does not '
               'depend on how request_method= is spelled (sorted closure under GET-implies-HEAD, also for the regenerated constructor), '
-              'PredicateList.make reads predicate arguments only through the constructors.')
+              'PredicateList.make reads predicate arguments only through the constructors; an accept= view is filed under its offer '
+              '(C03 MultiView model: media_views, acceptable_offers over the WebOb quality oracle), clause J7 is not applied to configurations with accept= (C03-accept-first).')
 LEVEL_NOTE = ('Trusted: Coq kernel; the translator\'s primitive table and assumptions A1-A4; the hand-written model for the parts that '
               'are not regenerated (shape-pinned, validated by correspondence); Python harness; zope.interface as oracle. A semantics-'
               'preserving rewrite of a translated function raises no alarm; a semantic change makes a generated_is_model theorem fail and '
@@ -185,7 +187,10 @@ def _stmt_wire(w, s):
         spec = P['implementedBy'](ctxo)
         name = ''
     req = w.iid(w.route_iface[s['route']]) if s.get('route') else w.iid(P['IRequest'])
-    vo = [s['tag'], req, w.iid(spec), name, _kw_wire(s.get('preds', {})),
+    kww = _kw_wire(s.get('preds', {}))
+    if k == 'view' and s.get('accept'):
+        kww.append(['accept', [[False, [1, s['accept']]]]])        # a predicate argument AND the offer MultiView.add files it under
+    vo = [s['tag'], req, w.iid(spec), name, kww,
           None if s.get('perm') is None or k != 'view' else [W.perm_text(s['perm'])],
           bool(isexception(ctxo)), bool(s.get('exc_only')) and k == 'view', s.get('wrapper') or '', bool(s.get('deco')),
           BEHAVE[s['behave']], bool(s.get('csrf')) and k == 'view', _vd_perm(s) if k == 'view' else None]
@@ -205,7 +210,7 @@ def _vd_perm(s):
 def _req_wire(w, r):
     o = w.oracle(r)
     return [r['method'], bool(r['xhr']), list(r['truth']), o['vname'], [0, o['res']], o['req_sro'], o['comb_sro'],
-            o['wrap_sro'], o['ctx_sro'], o['exc_sro'], r['method'] in ('GET', 'HEAD') or bool(r.get('csrf'))]
+            o['wrap_sro'], o['ctx_sro'], o['exc_sro'], r['method'] in ('GET', 'HEAD') or bool(r.get('csrf')), o['accq']]
 
 
 def _iface_ids(w):
@@ -462,9 +467,13 @@ def kinds(case, obs):
                 if prev is not None and prev[0] < bi and prev[1] != s['preds']['request_method']:
                     ks.append('stmt:override-spells-request_method-differently')
                 seen_keys[dk] = (bi, s['preds']['request_method'])
+    if any(r.get('accept') for r in case['requests']):
+        ks.append('req:Accept-header')
     if any(r['method'] == 'HEAD' for r in case['requests']):
         ks.append('req:HEAD')
     for s in case['stmts']:
+        if s.get('accept'):
+            ks.append('stmt:accept=')
         if s.get('xnone'):
             ks.append('stmt:explicit-permission-None' + ('-static' if s['k'] == 'static' else ''))
         if s.get('perm') == 'NPRC':
